@@ -191,7 +191,7 @@ def corpus():
 
 
 def generate(rng, tier):
-    n = 1500 if tier == 'quick' else 20000
+    n = 1500 if tier == 'quick' else 12000
     top = 25 if tier == 'quick' else 40
     return [gen_history(rng, maxlen=top) for _ in range(n)]
 
@@ -379,7 +379,9 @@ def run_history(case, workdir):
                 r = ['exc', EXC.get(name, 'OTHER:' + name)]
                 raised = True
             if raised:
-                gc.collect()
+                # frames of the failed call may sit in a young reference cycle (exception <-> frame); the
+                # youngest generation is enough and costs a fraction of a full collection
+                gc.collect(0)
             pend = None
             if not tx._obsolete and tx._connection is not None and tx._connection.in_transaction:
                 pend = table_of(tx._connection)
